@@ -767,6 +767,12 @@ var letters = []letter{
 		m.bind("agetx", bind{"fn", "a", "getx"})
 		return `from "a" import setx as aset, getx as agetx`
 	}},
+	{"from a import getx as ga1, getx as ga2 (one name under two aliases)", func(m *model, pos int) string {
+		m.load("a")
+		m.bind("ga1", bind{"fn", "a", "getx"})
+		m.bind("ga2", bind{"fn", "a", "getx"})
+		return "from a import getx as ga1, getx as ga2"
+	}},
 	{"from a import b as ab", func(m *model, pos int) string {
 		m.load("a")
 		m.bind("ab", bind{"mod", "b", ""})
